@@ -60,7 +60,7 @@ func CheckSuiteAgainstModel(s *drive.Shard, m *model.Collection, suite []models.
 		}
 		switch {
 		case q.Text != nil:
-			tq := TextQuery{Value: q.Text.Value, Operator: q.Text.Operator, Limit: q.Text.Limit, Weight: q.Text.Weight, Filter: q.Text.Filter}
+			tq := TextQuery{Prop: q.Property, Value: q.Text.Value, Operator: q.Text.Operator, Limit: q.Text.Limit, Weight: q.Text.Weight, Filter: q.Text.Filter}
 			if _, err := CheckText(m, tq, rows); err != nil {
 				return fmt.Errorf("suite query %s: %v", queryName(i, q), err)
 			}
